@@ -175,7 +175,7 @@ def count_variants_case(case, ctx):
     the declared number of scales decides which scale is the output."""
     from nptdms import TdmsFile
     rng = random.Random('c13c/%d' % case['s'])
-    graph = SG.gen_graph(rng, depth=rng.randint(2, 4), kinds=['Linear', 'Polynomial', 'Linear', 'Add', 'Subtract'])
+    graph = SG.gen_graph(rng, depth=rng.randint(2, 4), kinds=['Linear', 'Polynomial', 'Linear', 'Add', 'Subtract'], permute=False)
     t = rng.choice(['i16', 'i32', 'f64', 'u8'])
     dt = M.TYPES[t][1]
     raw_vals = np.array([rng.randrange(0, 50) for _ in range(6)]).astype(dt)
@@ -339,7 +339,7 @@ def daqmx_case(case, ctx):
         ids = sorted(s['id'] for s in ch['scalers'])
         if ch['raw'] and ids == list(range(len(ids))) and not f.digital:
             k = len(ids)
-            graph = SG.gen_graph(rng, depth=rng.randint(1, 3), kinds=['Linear', 'Polynomial', 'Add', 'Subtract'])
+            graph = SG.gen_graph(rng, depth=rng.randint(1, 3), kinds=['Linear', 'Polynomial', 'Add', 'Subtract'], permute=False)
             # re-wire: 'raw data' inputs become DAQmx scaler ids, scale indices shift by k
             def shift(v):
                 if v is None or v == SG.RAW:
